@@ -470,6 +470,28 @@ class ScheduleNTasksInTimeIntervals(TaskConstraint):
                 [(scheduled, True) for scheduled in bools_for_this_task], 1
             )
             self.set_z3_assertions(asst_tsk)
+            # conversely, a task that lies inside one of the time intervals has to be counted
+            task_in_any_time_interval = z3.Or(
+                [
+                    z3.And(task._start >= lower_bound, task._end <= upper_bound)
+                    for lower_bound, upper_bound in self.list_of_time_intervals
+                ]
+            )
+            self.set_z3_assertions(
+                z3.Implies(task_in_any_time_interval, z3.Or(bools_for_this_task))
+            )
+            # and a task that is not counted does not overlap any of the time intervals
+            task_outside_all_time_intervals = z3.And(
+                [
+                    z3.Or(task._end <= lower_bound, task._start >= upper_bound)
+                    for lower_bound, upper_bound in self.list_of_time_intervals
+                ]
+            )
+            self.set_z3_assertions(
+                z3.Implies(
+                    z3.Not(z3.Or(bools_for_this_task)), task_outside_all_time_intervals
+                )
+            )
             all_bools.extend(bools_for_this_task)
 
         # we also have to exclude all the other cases, where start or end can be between two intervals
